@@ -376,7 +376,7 @@ func checkRequestRules(c *core.Ctx, l *core.Ledger) {
 		var ins ssa.Instruction
 		core.Instrs(f, func(in ssa.Instruction) {
 			if lk, ok := in.(*ssa.Lookup); ok && lk.CommaOk {
-				if fld, _ := core.LoadedField(lk.X); fld != nil && fld.Name() == "moduleIDs" {
+				if fld, _ := core.LoadedField(lk.X); fld != nil && isMapTo(fld.Type(), "ModuleID") {
 					for _, r := range *lk.Referrers() {
 						if ex, ok := r.(*ssa.Extract); ok && ex.Index == 1 {
 							for _, rr := range *ex.Referrers() {
@@ -624,17 +624,18 @@ func checkModulesFirst(c *core.Ctx, l *core.Ledger, rule, key string) {
 		}
 		if cal.Name() == "Walk" && recvNamed(cal) == "Module" && core.Sym(call.Common().Args[0]) == "$0" {
 			// the callback registers the module it is given
-			var cb *ssa.Function
-			switch x := call.Common().Args[1].(type) {
-			case *ssa.MakeClosure:
-				cb = x.Fn.(*ssa.Function)
-			case *ssa.Function:
-				cb = x
-			}
+			cb := funcValueTarget(call.Common().Args[1])
 			if cb != nil {
+				// the parameter that is the visited module
+				mod := ""
+				for i, p := range cb.Params {
+					if core.TypeLabel(p.Type()) == "*compile.Module" {
+						mod = fmt.Sprintf("$%d", i)
+					}
+				}
 				for _, ac := range callsIn(cb, "AddModule") {
 					args := ac.(ssa.CallInstruction).Common().Args
-					if s := core.Sym(args[len(args)-1]); s == "$0.ThriftPath" {
+					if s := core.Sym(args[len(args)-1]); mod != "" && s == mod+".ThriftPath" {
 						cbOK = true
 					}
 				}
@@ -931,4 +932,40 @@ func onlyTrueStored(c *core.Ctx, fld *types.Var) bool {
 		})
 	}
 	return ok && n > 0
+}
+
+// isMapTo: t is a map whose element type is the named type elem (the field is
+// identified by what it holds, not by what it is called).
+func isMapTo(t types.Type, elem string) bool {
+	m, ok := t.Underlying().(*types.Map)
+	if !ok {
+		return false
+	}
+	n, ok := m.Elem().(*types.Named)
+	return ok && n.Obj().Name() == elem
+}
+
+// funcValueTarget: the function a function-typed value denotes — a function, a
+// closure, or the method behind a method value (the synthetic $bound wrapper is
+// looked through).
+func funcValueTarget(v ssa.Value) *ssa.Function {
+	switch x := v.(type) {
+	case *ssa.Function:
+		return x
+	case *ssa.ChangeType:
+		return funcValueTarget(x.X)
+	case *ssa.MakeClosure:
+		fn, _ := x.Fn.(*ssa.Function)
+		if fn != nil && strings.HasSuffix(fn.Name(), "$bound") {
+			var target *ssa.Function
+			core.Instrs(fn, func(in ssa.Instruction) {
+				if call, ok := in.(ssa.CallInstruction); ok && call.Common().StaticCallee() != nil {
+					target = call.Common().StaticCallee()
+				}
+			})
+			return target
+		}
+		return fn
+	}
+	return nil
 }
